@@ -12,6 +12,12 @@ import time
 NCPU = os.cpu_count() or 4
 
 
+def _clip(err, head=9000, tail=3000):
+    if len(err) <= head + tail:
+        return err
+    return err[:head] + "\n...[clipped]...\n" + err[-tail:]
+
+
 def _reader(proc, q, tag):
     for line in proc.stdout:
         q.put((tag, line))
@@ -25,7 +31,7 @@ class Shard:
 
 
 def run_shards(argv_fn, total, nworkers=None, env=None, first_index=0, hang_s=120, chunk=None, on_record=None,
-               deadline=None):
+               deadline=None, should_stop=None):
     """argv_fn(first, count) -> argv.  Calls on_record(rec) for every run: the worker's own JSON
     record, or a synthesized {"run":i,"verdict":"died",...}.  Returns stats dict."""
     nworkers = nworkers or NCPU
@@ -51,7 +57,7 @@ def run_shards(argv_fn, total, nworkers=None, env=None, first_index=0, hang_s=12
                     return
                 sh = pending.pop()
             while sh.next < sh.end:
-                if deadline and time.time() > deadline:
+                if (deadline and time.time() > deadline) or (should_stop and should_stop()):
                     with lock:
                         stats["skipped_deadline"] += sh.end - sh.next
                     break
@@ -65,6 +71,7 @@ def run_shards(argv_fn, total, nworkers=None, env=None, first_index=0, hang_s=12
                 et.start()
                 inflight = None
                 phase = None
+                partial = None
                 reported = set()
                 q = queue.Queue()
                 rt = threading.Thread(target=_reader, args=(proc, q, 0), daemon=True)
@@ -89,6 +96,10 @@ def run_shards(argv_fn, total, nworkers=None, env=None, first_index=0, hang_s=12
                     if "begin" in rec:
                         inflight = rec["begin"]
                         phase = rec.get("phase")
+                        partial = None
+                        continue
+                    if "partial" in rec:
+                        partial = rec
                         continue
                     if "run" in rec:
                         reported.add(rec["run"])
@@ -103,7 +114,11 @@ def run_shards(argv_fn, total, nworkers=None, env=None, first_index=0, hang_s=12
                     with lock:
                         stats["hangs"] += 1
                 if inflight is not None and inflight not in reported:
-                    rec = {"run": inflight, "verdict": "died", "exit": rc, "hung": hung, "stderr": err[-6000:], "phase": phase}
+                    rec = {"run": inflight, "verdict": "died", "exit": rc, "hung": hung, "stderr": _clip(err), "phase": phase}
+                    if partial:
+                        rec["spec"] = partial.get("spec")
+                        rec["trace"] = partial.get("trace")
+                        rec["steps"] = partial.get("steps")
                     with lock:
                         stats["deaths"] += 1
                         stats["records"] += 1
@@ -114,7 +129,7 @@ def run_shards(argv_fn, total, nworkers=None, env=None, first_index=0, hang_s=12
                     # died right after reporting (simulator-fatal paths _exit after printing)
                     sh.next = inflight + 1
                 elif rc != 0 and inflight is None:
-                    rec = {"run": sh.next, "verdict": "died", "exit": rc, "hung": hung, "stderr": err[-6000:], "startup": True}
+                    rec = {"run": sh.next, "verdict": "died", "exit": rc, "hung": hung, "stderr": _clip(err), "startup": True}
                     with lock:
                         stats["deaths"] += 1
                     if on_record:
@@ -154,6 +169,7 @@ def run_one(argv, env=None, timeout=120):
 
 # ---- sanitizer report triage -------------------------------------------------------------------
 _FRAME = re.compile(r"#\d+ 0x[0-9a-f]+ in (.+?) (/[^\s:]+)(?::(\d+))?")
+_FRAME_TSAN = re.compile(r"#\d+ (.+?) (/[^\s:]+):\d+(?::\d+)? \(")
 
 
 def classify_sanitizer(stderr, repo_prefix=None):
@@ -189,7 +205,7 @@ def classify_sanitizer(stderr, repo_prefix=None):
     for line in stderr.splitlines():
         if re.search(r"(allocated by|freed by|previously allocated)", line):
             section = 1
-        fm = _FRAME.search(line)
+        fm = _FRAME.search(line) or _FRAME_TSAN.search(line)
         if fm:
             fn, path = fm.group(1), fm.group(2)
             fn = re.sub(r"\(.*$", "", fn).strip()
